@@ -67,6 +67,8 @@ pub struct HubState {
     pub frames: Vec<Frame>,
     /// raw /rr/ frames (from, to, bytes) for the request/response driver
     pub rr_tap: Vec<(String, String, Vec<u8>)>,
+    /// every dial the transports asked for: (dialler, address string as handed to connect_peer, reached peer or "")
+    pub dials: Vec<(String, String, String)>,
     pub seq: u64,
     pub rng: ChaCha8Rng,
     pub delay_max_ms: u64,
@@ -75,6 +77,11 @@ pub struct HubState {
 
 pub struct Hub {
     pub st: Mutex<HubState>,
+}
+
+/// Canonical text of a socket address string (what `SocketAddr::to_string` gives); unparseable strings stay as they are.
+pub fn canon(address: &str) -> String {
+    address.parse::<SocketAddr>().map(|a| a.to_string()).unwrap_or_else(|_| address.to_string())
 }
 
 fn pair(a: &str, b: &str) -> (String, String) {
@@ -97,6 +104,7 @@ impl Hub {
                 blackholes: HashSet::new(),
                 frames: Vec::new(),
                 rr_tap: Vec::new(),
+                dials: Vec::new(),
                 seq: 0,
                 rng,
                 delay_max_ms,
@@ -108,8 +116,8 @@ impl Hub {
     pub fn register(&self, id: &str, addr: &str, ep: Endpoint) {
         let mut s = self.st.lock().expect("hub");
         s.nodes.insert(id.to_string(), ep);
-        s.addr2id.insert(addr.to_string(), id.to_string());
-        s.id2addr.insert(id.to_string(), addr.to_string());
+        s.addr2id.insert(canon(addr), id.to_string());
+        s.id2addr.insert(id.to_string(), canon(addr));
     }
 
     /// Record a connection between two endpoints (for connections the harness opens "from outside").
@@ -272,7 +280,14 @@ impl VerifNet for Hub {
     }
 
     async fn connect(&self, from: &str, from_addr: &str, address: &str) -> Result<String, String> {
-        let hole = self.st.lock().expect("hub").blackholes.contains(address);
+        let hole = {
+            let mut s = self.st.lock().expect("hub");
+            let reached = s.addr2id.get(&canon(address)).cloned().unwrap_or_default();
+            s.dials.push((from.to_string(), address.to_string(), reached));
+            s.blackholes.contains(address)
+        };
+        // the QUIC path parses the string as a SocketAddr; anything else is an invalid address there
+        let address = &canon(address);
         if hole {
             tokio::time::sleep(Duration::from_secs(10_000_000)).await;
             return Err("no answer".into());
